@@ -363,6 +363,8 @@ class Sym:
             return bv(bvconst((1 << w) - 1 if m.group(2) == "MAX" else 0, w), w)
         m = re.match(r"(?:[\w:<> ,]*::)?([A-Z][A-Z0-9_]+)$", c)
         if m and m.group(1) in self.CONSTS:
+            if isinstance(self.CONSTS[m.group(1)], V):
+                return self.CONSTS[m.group(1)]  # a symbolic constant (the obligation holds for every value the script allows)
             val, ty = self.CONSTS[m.group(1)]
             return bv(bvconst(val, INT_W[ty]), INT_W[ty], ty in SIGNED)
         self.fresh += 1
@@ -526,6 +528,14 @@ class Sym:
             p = parse_place(m.group(2))
             rp = self.resolve(path, p)
             return self.load(path, rp, self.place_type(p)), rp
+        # enum-variant constructor printed by its bare name, e.g. `Start(move _39)`: payload kept, tag in .t
+        dt_ = (dest_ty or "").strip()
+        if m and re.match(r"[A-Z][a-z]\w*$", m.group(1)) and dt_ and dt_ not in INT_W and dt_ not in ("bool", "f32", "f64", "char") and not dt_.startswith(("*", "&")):
+            try:
+                items = [self.operand(path, o)[0] for o in mir.split_top(m.group(2))]
+                return V("tuple", t="ctor:" + m.group(1), items=items), None
+            except Exception:
+                pass
         # tuple aggregate (a, b)
         if s.startswith("(") and s.endswith(")") and not s.startswith("(*") and ":" not in s.split(",")[0]:
             try:
@@ -679,6 +689,7 @@ class Sym:
                 dp = parse_place(t["dest"])
                 dty = self.place_type(dp)
                 res = make_size_of(t["func"]) if "size_of" in t["func"] else None
+                self.cur_term, self.cur_bb = t, bb  # for models that bind parts of the result (variant payloads) by destination
                 for pat, fnm in ([] if res is not None else self.models.items()):
                     if re.search(pat, t["func"]):
                         res = fnm(self, path, args, dty)
